@@ -76,6 +76,11 @@ def gen_pair(tp: S.Tape, classes=("MG", "SMG", "CRG", "SCRG", "SMG", "SCRG"),
         if cls not in ("SMG", "SCRG"):
             cls = "SMG"
         m1, m2 = S.ring_cis_trans(tp, cls)
+        if tp.chance(90):
+            # ids whose hashes coincide, on two look-alike neighbours
+            probe = S.Tape(bytes(tp.byte() for _ in range(12)))
+            m1 = S.collide_ids(S.Tape(probe.d), m1)
+            m2 = S.collide_ids(S.Tape(probe.d), m2)
         other = m2 if tp.chance(170) else m1
         rb, _ = S.variant_from(other, list(S.renaming(tp, other.atoms).items()),
                                tp.below(1 << 30))
@@ -107,6 +112,8 @@ def gen_pair(tp: S.Tape, classes=("MG", "SMG", "CRG", "SCRG", "SMG", "SCRG"),
     big = src == "big"
     m1 = S.gen_model(tp, cls, nmax=30 if big else 8, nmin=21 if big else 2,
                      kmax=3)
+    if not big and tp.chance(40):
+        m1 = S.collide_ids(tp, m1)
     m2, kind = S.mutate(tp, m1)
     if m2 is None:
         m2, kind = m1.copy(), "none"
